@@ -186,7 +186,19 @@ static void case_c06(const args_t *a, long c, rng_t *r)
 			if (outmode == 2) { size_t k = rndn(r, (uint32_t)want.n + 1); for (size_t i = 0; i < k; i++) miter_next(&mi, "sorter-iter"); STAT("c06.out.iter_abandoned"); }
 			else { stat_add("c06.entries_compared", miter_drain(&mi, "sorter-iter")); STAT("c06.out.iter_full");
 				/* the sorter's iterator also seeks (it is a merger iterator): a short seek history */
-				if (want.n && rndp(r, 300)) { const ent_t *e = &want.e[rndn(r, want.n)]; miter_seek(&mi, e->k.p, e->k.n, "sorter-seek"); miter_next(&mi, "sorter-seek"); miter_next(&mi, "sorter-seek"); STAT("c06.iter_seeks"); } }
+				if (want.n && rndp(r, 400)) {
+					int nops = 4 + rndn(r, 20);
+					for (int q = 0; q < nops; q++) {
+						if (rndn(r, 3) == 0) {
+							uint8_t pe[3] = {0xff, 0xff, 0xff};
+							int tk = rndn(r, 5);
+							if (tk == 0 && mi.last_idx >= 0) miter_seek(&mi, want.e[mi.last_idx].k.p, want.e[mi.last_idx].k.n, "sorter-seek");       /* the key just returned */
+							else if (tk == 1) miter_seek(&mi, pe, 3, "sorter-seek");                                                             /* past the end */
+							else { const ent_t *e = &want.e[rndn(r, want.n)]; miter_seek(&mi, e->k.p, e->k.n, "sorter-seek"); }
+							STAT("c06.iter_seeks");
+						} else miter_next(&mi, "sorter-seek");
+					}
+				} }
 			miter_check_stable(&mi, "sorter"); miter_forget(&mi);
 		}
 	}
